@@ -78,7 +78,24 @@ for j, payload in enumerate([b"\x8c\x05hello\x94\x8c\x03abc\x94\x86.", b"C\x04\x
     for k in sorted({1, 2, 3, 4, 5, len(payload) // 2, len(payload) - 2, len(payload), len(payload) + 7}):
         if k >= 0:
             good.append((f"frame-{j}-len{k}-of-{len(payload)}", b"\x80\x04\x95" + struct.pack("<Q", k) + payload))
-good = [(nm, d) for nm, d in good if first_len(d) == len(d)]
+import pickle as _pk  # noqa: E402
+for _pr in range(0, 6):
+    good.append((f"lone-surrogate-text-p{_pr}", _pk.dumps("x\udcff", _pr)))
+    good.append((f"lone-surrogate-in-list-p{_pr}", _pk.dumps(["a", "\ud800b", 1], _pr)))
+    good.append((f"text-opcodes-at-offset-0-p{_pr}", _pk.dumps(True, _pr)))
+    good.append((f"long-int-at-offset-0-p{_pr}", _pk.dumps(2 ** 40, _pr)))
+good.append(("py2-short-binstring-254", b"U\xfe" + b"a" * 254 + b"q\x00."))
+good.append(("py2-short-binstring-255-with-proto", b"\x80\x02U\xff" + b"\xe9" * 255 + b"q\x00."))
+_ok = []
+for nm, d in good:
+    try:
+        if first_len(d) == len(d):
+            fk.Pickled.load(d)
+            _ok.append((nm, d))
+    except Exception as _e:  # noqa
+        if nm.startswith(("lone-surrogate", "text-opcodes", "long-int", "py2-short")):
+            fails.append({"program": nm, "bytes": d.hex(), "how": "bytes", "what": f"a pickle the stock unpickler / pickletools accept is refused: {type(_e).__name__}: {_e}"[:200]})
+good = _ok
 for name, data in good:
     n += 1
     trail = rnd.choice([b"", b"TRAIL", b"\x00\xff.", b"N."])
